@@ -13,7 +13,7 @@ CLAIMS = {
          "DESIGN.md §3 C01"),
  "C02": ("exploration",
          "model-based stateful testing: generated operation histories vs a pure sequential model (proptest), plus concurrent producers with per-producer sequential replay (disjoint keys) and a linearizability check on a logical clock (shared keys)",
-         "Generated histories over the full writer API and configuration space are checked against a sequential model after every commit / abort / rollback / merge / reopen, including opstamp laws; concurrent producers are checked by per-producer sequential replay and opstamp-range disjointness.",
+         "Generated histories over the full writer API and configuration space are checked against a sequential model after every commit / abort / rollback / merge / reopen, including opstamp laws; concurrent producers are checked by per-producer sequential replay and opstamp-range disjointness; histories include a commit held inside its metadata write while a merge ends and a delete issued while a commit_future is still queued (sub late_delete).",
          "thread interleavings are sampled (steered by the flush-every-N and pause-point hooks), never enumerated; document shapes are small (uid, group, 0-4 words, a number)",
          "DESIGN.md §3 C02"),
  "C03": ("exploration",
@@ -52,13 +52,13 @@ CLAIMS = {
          "values are compared with an independent model (never through tantivy's own serialisation or PartialEq); object key order and NaN payloads are not demanded",
          "DESIGN.md §3 C09"),
  "C10": ("exploration",
-         "quiescence (no-orphan / nothing-missing) predicate over generated histories on SimDir and MmapDirectory, and over recovered crash images (proptest)",
+         "quiescence (no-orphan / nothing-missing) predicate over generated histories on SimDir and MmapDirectory, over recovered crash images, and over generated gated schedules of GC against workers, merge threads, readers and a dropped writer's updater (proptest + SimDir gates)",
          "After every commit under NoMergePolicy and at the end of every generated history (merges joined, gc run) the directory listing must equal meta.json + committed segment files and .managed.json must match; crash images of generated histories are recovered, committed to, collected and checked for orphans.",
-         "GC/worker/merge races are those the OS schedule produces in generated histories (gated races are a planned extension); transient survivors are re-collected up to 5 times before being reported",
+         "outside the six gated race families (sub races) GC/worker/merge interleavings are those the OS schedule produces in generated histories; transient survivors are re-collected up to 5 times before being reported",
          "DESIGN.md §3 C10"),
  "C11": ("fault_enumeration",
          "fault injection at generated storage-operation positions x mode x kind x thread in child processes, judged against the sequential model and the durable crash image (proptest + process isolation)",
-         "For generated histories a fault-free dry run counts the storage operations; generated positions (fraction of the count) x {once, permanent} x kind filter x thread filter are injected in a child process; every Ok commit's minimal durable image must open and equal its model, after the run the index equals the last successful (or the failed-but-published) commit, and a new writer continues; abort, panic or a stalled child is a violation.",
+         "For generated histories a fault-free dry run counts the storage operations; generated positions (fraction of the count) x {once, permanent} x kind filter x thread filter are injected in a child process; every Ok commit's minimal durable image must open and equal its model, after the run the index equals the last successful (or the failed-but-published) commit, a new writer continues, and (without a merging policy) after one more commit and collection on healthy storage nothing is left of the failed work - every leftover file would at least have to be managed still; abort, panic or a stalled child is a violation.",
          "faults are io::Errors returned by Directory operations of SimDir; positions are sampled (24-40 per history), not all k; hang = no output and no CPU progress for 20 s",
          "DESIGN.md §3 C11"),
  "C12": ("exploration",
